@@ -6,6 +6,7 @@ import (
 	"fmt"
 	"strings"
 
+	"github.com/snower/slock/protocol"
 	"verif/explore"
 	"verif/hapi"
 	"verif/vrt"
@@ -290,6 +291,68 @@ func c14TextOptionWords(quick bool) C14Group {
 	return g
 }
 
+// c14BinaryChunking: a binary frame (with and without a value frame behind it) that reaches the server in two
+// reads, cut at every byte position, as the first frame of a connection and as a later one, must be answered like
+// the same frame delivered whole.
+func c14BinaryChunking(quick bool) C14Group {
+	g := C14Group{Name: "binary-chunking"}
+	distinct := map[string]bool{}
+	frames := map[string][]byte{
+		"lock":       wire.BinFrame(hapi.Cmd{Type: 1, Req: 3, Key: 4, Id: 5, Expried: 50, Count: 2, Rcount: 3}),
+		"lock+value": wire.BinFrame(hapi.Cmd{Type: 1, Req: 3, Key: 4, Id: 5, Flag: 0x20, Expried: 50, Data: protocol.NewLockCommandDataSetString("hello").Data}),
+	}
+	for name, fr := range frames {
+		for _, first := range []bool{true, false} {
+			var whole string
+			for cut := 0; cut < len(fr); cut++ {
+				g.Evaluations++
+				var got, msg string
+				rt := vrt.Run(vrt.Options{MaxPoints: 50_000_000}, func() {
+					node := hapi.Factories["n0"](hapi.Config{FastKeys: 4, Concurrent: 1})
+					if err := node.Start(); err != nil {
+						msg = "engine: " + err.Error()
+						return
+					}
+					vrt.AdvanceTo(1300 * ms)
+					c, _ := wire.Dial(nodeAddr(0))
+					if !first {
+						_ = c.Send(make64(5))
+						c.TakeBin()
+					}
+					if cut > 0 {
+						_ = c.Send(fr[:cut])
+					}
+					_ = c.Send(fr[cut:])
+					vrt.AdvanceTo(vrt.Elapsed() + 100*ms)
+					c.Pump()
+					got = fmt.Sprintf("%s closed=%v raw=%d", binStr(c.TakeBin()), c.Closed, len(c.In))
+				})
+				if rt.Crash != nil {
+					msg = "crash: " + rt.Crash.Value
+				}
+				if strings.HasPrefix(msg, "engine:") {
+					g.Violations = append(g.Violations, explore.Violation{Sig: "engine", Msg: msg})
+					return g
+				}
+				if cut == 0 {
+					whole = got
+				}
+				distinct[name+fmt.Sprint(first)+got] = true
+				if (msg != "" || got != whole) && len(g.Violations) < 4 {
+					sig := "C14:binary-frame-depends-on-chunking"
+					if first {
+						sig += "/first-frame-of-a-connection"
+					}
+					g.Violations = append(g.Violations, explore.Violation{Sig: sig, Msg: fmt.Sprintf("frame %s (%d bytes), first frame of its connection: %v, delivered as %d + %d bytes: answered [%s] %s; delivered whole it is answered [%s]", name, len(fr), first, cut, len(fr)-cut, got, msg, whole)})
+				}
+			}
+		}
+	}
+	g.Samples = append(g.Samples, "a LOCK frame and a LOCK frame followed by a value frame, every two-read split, as first and as later frame of a connection")
+	g.Distinct = len(distinct)
+	return g
+}
+
 // c14TextCounts: the text options COUNT and RCOUNT are maximum numbers (binary field + 1); every boundary value
 // must produce the hold the equivalent binary command produces and be echoed unchanged in the reply.
 func c14TextCounts(quick bool) C14Group {
@@ -351,7 +414,7 @@ func init() {
 			return cp.ReplayFile(c, c.Args[1])
 		}
 		groups := RunC14Codec(c.Quick())
-		groups = append(groups, c14TextVsBinary(c.Quick()), c14TextReuse(c.Quick()), c14TextOptionWords(c.Quick()), c14TextCounts(c.Quick()))
+		groups = append(groups, c14TextVsBinary(c.Quick()), c14TextReuse(c.Quick()), c14TextOptionWords(c.Quick()), c14TextCounts(c.Quick()), c14BinaryChunking(c.Quick()))
 		evals, distinct, viol := 0, 0, 0
 		var samples []interface{}
 		per := map[string]interface{}{}
